@@ -142,7 +142,7 @@ def make_deps(vc, fam, Dn, chain):
 
 def inputs(variant, seed):
     """evaluation points and conditioning values: variant 0 canonical, others seeded random"""
-    if variant == 0:
+    if variant in (0, -2):     # -2: canonical inputs, INTEGER-typed fixed values (see cond_record)
         return XV, PV, GIVEN_VEC, GIVEN_SCA, X_SCA, P_SCA
     if variant == -1:   # integer-typed conditioning values (python int, numpy integer scalar, int64 vector)
         return (XV, PV, (np.array([1, 2, 3, 2, 1], dtype=np.int64), np.array([3, 1, 2, 2, 3], dtype=np.int64)),
@@ -160,6 +160,8 @@ def cond_record(vc, rid, case, seed=0, variant=0):
     names = D.NAMES[fam]
     fixedn = [n for n in names if n not in Dn]
     Fx = D.fixed_values(fam)
+    if variant == -2:          # f_<name> given as python int (2 / 3): relayed explicitly to the template
+        Fx = {n: 2 + names.index(n) % 2 for n in names}
     rec = dict(id=rid, kind="cond", variant=variant, fam=fam, D=Dn, chain=chain, shape=shape, method=method, exc="",
                shapeok=True, tplrel=0, vecrel=0, parrel=0, fixedok=True, ncmp=0, effective=False, indep=True)
     const = chain == "const"
@@ -365,7 +367,7 @@ QUICK_INT_CHAINS = ("plain", "const")      # = QuickIntChains of spec/ParamRouti
 
 
 def judge(ctx, vc, cases, summary=True, variants=(0,), hists=()):
-    part = [v for v in variants if v == -1 and ctx.quick and summary]
+    part = [v for v in variants if v in (-1, -2) and ctx.quick and summary]
     cases = [dict(c, variant=c.get("variant", v)) for v in variants for c in cases
              if not (v in part and c["chain"] not in QUICK_INT_CHAINS)]
     recs = [cond_record(vc, i + 1, c, ctx.seed, c["variant"]) for i, c in enumerate(cases)]
@@ -433,8 +435,8 @@ def run(ctx):
                 "last/first/middle in the signature)/const (callables constant in given: scalar-returning or ignoring "
                 "x), call shape x scalar|vector x given "
                 "scalar|vector, method pdf/cdf/icdf/draw_sample); each is instantiated on the real classes and "
-                "called twice with different conditioning values, with float and with integer-typed conditioning values (quick: integer-typed for the plain and const "
-                "chain kinds) "
+                "called twice with different conditioning values, with float and with integer-typed conditioning values and with integer-typed fixed values (quick: both "
+                "integer variants for the plain and const chain kinds) "
                 "(thorough: 3 more seeded random input variants); plus every history of <= 4 steps (evaluate at g1/g2, "
                 "assign new coefficients to a level, fit the innermost level) of a chained dependence function of depth "
                 "1 and 2, replayed on a real ConditionalDistribution (template family, dependent set and conditioning "
@@ -463,7 +465,7 @@ def run(ctx):
     cases = ctx.generate("ParamRouting", "Gen_ParamRouting_cond.cfg")
     hists = (ctx.generate("ParamRoutingMemo", "Gen_ParamRoutingMemo_d1.cfg")
              + ctx.generate("ParamRoutingMemo", "Gen_ParamRoutingMemo_d2.cfg"))
-    cases, recs, failing = judge(ctx, vc, cases, variants=ctx.pick((0, -1), (0, -1, 1, 2, 3)), hists=hists)
+    cases, recs, failing = judge(ctx, vc, cases, variants=ctx.pick((0, -1, -2), (0, -1, -2, 1, 2, 3)), hists=hists)
     ctx.notes["chained_function_histories"] = len(hists)
     good = next((r for r in recs if r["id"] not in failing and r["shape"] == "vv" and r["chain"] == "chain2"), None)
     if good is not None:
